@@ -11,6 +11,8 @@ import (
 	"sync"
 	"testing"
 
+	"go.uber.org/multierr"
+
 	"go.opentelemetry.io/collector/component"
 	"go.opentelemetry.io/collector/component/componenttest"
 	"go.opentelemetry.io/collector/connector"
@@ -102,6 +104,8 @@ type c06Fan struct {
 type c06Call struct {
 	trail string
 	data  any
+	ro    bool // IsReadOnly() of what the exporter was handed, at its call
+	inj   int  // which injected payload this call belongs to
 }
 
 // c06World: instrumented components. Names encode the declared capability: a trailing "m" means MutatesData.
@@ -113,7 +117,35 @@ type c06World struct {
 	fans     map[string]*c06Fan
 	fanOrder []string
 	seq      int
+	inj      int
+	injSeq   int
+	sgB      c06Sig   // the OTHER signal of a cross-signal case (payloads created by the 'x' connectors)
+	bySig    map[string]c06Sig
+	subs     []c06Sub // payloads created by cross-signal connectors
 	panics   []string
+	failing  func(name string) bool // exporters that return an error (after looking at / writing to what they were handed)
+}
+
+// a payload created by a cross-signal connector: a new journey through the pipelines of the other signal
+type c06Sub struct {
+	x    string
+	inj  int
+	t0   string // the trail the new payload starts with
+	errs int
+}
+
+// adapter of the payload's own signal (a cross-signal case has payloads of two signals)
+func (w *c06World) of(d any) c06Sig {
+	switch d.(type) {
+	case plog.Logs:
+		return w.bySig["logs"]
+	case pmetric.Metrics:
+		return w.bySig["metrics"]
+	case ptrace.Traces:
+		return w.bySig["traces"]
+	default:
+		return w.bySig["profiles"]
+	}
 }
 
 type c06Key int
@@ -126,7 +158,7 @@ const (
 func c06Mut(name string) bool { return strings.HasSuffix(name, "m") }
 
 func (w *c06World) trail(d any) string {
-	v, _ := w.sg.attrs(d).Get("trail")
+	v, _ := w.of(d).attrs(d).Get("trail")
 	return v.Str()
 }
 
@@ -137,7 +169,7 @@ func (w *c06World) appendTag(d any, tag string) {
 			w.panics = append(w.panics, tag)
 		}
 	}()
-	a := w.sg.attrs(d)
+	a := w.of(d).attrs(d)
 	v, _ := a.Get("trail")
 	a.PutStr("trail", v.Str()+">"+tag)
 }
@@ -155,7 +187,7 @@ func (w *c06World) enter(ctx context.Context, key c06Key, who string, d any) {
 	if f == nil {
 		return
 	}
-	f.entries = append(f.entries, c06Entry{who: who, ptr: c06Ptr(d), ro: w.sg.isRO(d)})
+	f.entries = append(f.entries, c06Entry{who: who, ptr: c06Ptr(d), ro: w.of(d).isRO(d)})
 }
 
 type c06Comp struct{}
@@ -185,7 +217,7 @@ func (n *c06Node) handle(ctx context.Context, d any, fwd func(context.Context) e
 		w.enter(ctx, c06HopKey, n.name[1:], d)
 		w.seq++
 		id := fmt.Sprintf("pfan:%s#%d", n.name[1:], w.seq)
-		w.fan(id, c06Ptr(d), w.sg.isRO(d))
+		w.fan(id, c06Ptr(d), w.of(d).isRO(d))
 		return fwd(context.WithValue(ctx, c06PfanKey, id))
 	case 'p':
 		if c06Mut(n.name) {
@@ -199,13 +231,38 @@ func (n *c06Node) handle(ctx context.Context, d any, fwd func(context.Context) e
 		}
 		w.seq++
 		id := fmt.Sprintf("hop:%s#%d", n.name, w.seq)
-		w.fan(id, c06Ptr(d), w.sg.isRO(d))
+		w.fan(id, c06Ptr(d), w.of(d).isRO(d))
 		return fwd(context.WithValue(ctx, c06HopKey, id)) // passes the object it received straight on
-	default:
+	case 'x':
+		// a cross-signal connector: for the pipeline that feeds it it is a plain consumer with its OWN declared capability
+		// (connector.go exposes it unwrapped); what it emits is a NEW payload of the other signal that starts with the trail so far
 		w.enter(ctx, c06PfanKey, n.name, d)
-		w.calls[n.name] = append(w.calls[n.name], c06Call{trail: w.trail(d), data: d})
+		w.calls[n.name] = append(w.calls[n.name], c06Call{trail: w.trail(d), data: d, ro: w.of(d).isRO(d), inj: w.inj})
 		if c06Mut(n.name) {
 			w.appendTag(d, n.name)
+		}
+		nd := w.sgB.newData()
+		w.sgB.attrs(nd).PutStr("trail", w.trail(d))
+		saved := w.inj
+		w.injSeq++
+		w.inj = w.injSeq
+		sub := c06Sub{x: n.name, inj: w.inj, t0: w.trail(d)}
+		w.seq++
+		id := fmt.Sprintf("hop:%s#%d", n.name, w.seq)
+		w.fan(id, c06Ptr(nd), false)
+		err := c06InjectSig(w.sgB.name, n.next, context.WithValue(ctx, c06HopKey, id), nd)
+		sub.errs = len(multierr.Errors(err))
+		w.subs = append(w.subs, sub)
+		w.inj = saved
+		return err
+	default:
+		w.enter(ctx, c06PfanKey, n.name, d)
+		w.calls[n.name] = append(w.calls[n.name], c06Call{trail: w.trail(d), data: d, ro: w.of(d).isRO(d), inj: w.inj})
+		if c06Mut(n.name) {
+			w.appendTag(d, n.name)
+		}
+		if w.failing != nil && w.failing(n.name) {
+			return fmt.Errorf("fail:%s", n.name)
 		}
 		return nil
 	}
@@ -232,10 +289,12 @@ var (
 	c06P = component.MustNewType("p")
 	c06E = component.MustNewType("e")
 	c06C = component.MustNewType("c")
+	c06X = component.MustNewType("x")
 )
 
 type c06Pipe struct {
 	name  string
+	sigB  bool     // a pipeline of the other signal (cross-signal cases)
 	recv  []string // receiver and connector names
 	procs []string // without the probe
 	exps  []string // exporter names and connector names
@@ -267,7 +326,26 @@ func c06BoolBits(bs []bool) string {
 	return sb.String()
 }
 
-func c06Factories(w *c06World) (receiver.Factory, processor.Factory, exporter.Factory, connector.Factory) {
+// numeric id of a component name ("e12m" -> 12; names are unique per case through one counter)
+func c06ID(name string) string {
+	return strings.TrimSuffix(name[1:], "m")
+}
+
+// ">p3m>c7m" -> "3.7" ("-" when empty)
+func c06TrailIDs(tr string) string {
+	var ids []string
+	for _, t := range strings.Split(tr, ">") {
+		if t != "" {
+			ids = append(ids, c06ID(t))
+		}
+	}
+	if len(ids) == 0 {
+		return "-"
+	}
+	return strings.Join(ids, ".")
+}
+
+func c06Factories(w *c06World) (receiver.Factory, processor.Factory, exporter.Factory, connector.Factory, connector.Factory) {
 	cfg := func() component.Config { return &struct{}{} }
 	st := component.StabilityLevelStable
 	rf := xreceiver.NewFactory(c06R, cfg,
@@ -333,11 +411,56 @@ func c06Factories(w *c06World) (receiver.Factory, processor.Factory, exporter.Fa
 		xconnector.WithProfilesToProfiles(func(_ context.Context, s connector.Settings, _ component.Config, next xconsumer.Profiles) (xconnector.Profiles, error) {
 			return &c06Node{w: w, kind: 'c', name: s.ID.Name(), next: next}, nil
 		}, st))
-	return rf, pf, ef, cf
+	xn := func(s connector.Settings, next any) *c06Node {
+		return &c06Node{w: w, kind: 'x', name: s.ID.Name(), next: next}
+	}
+	// all twelve cross-signal pairs
+	xf := xconnector.NewFactory(c06X, cfg,
+		xconnector.WithLogsToMetrics(func(_ context.Context, s connector.Settings, _ component.Config, next consumer.Metrics) (connector.Logs, error) {
+			return xn(s, next), nil
+		}, st),
+		xconnector.WithLogsToTraces(func(_ context.Context, s connector.Settings, _ component.Config, next consumer.Traces) (connector.Logs, error) {
+			return xn(s, next), nil
+		}, st),
+		xconnector.WithLogsToProfiles(func(_ context.Context, s connector.Settings, _ component.Config, next xconsumer.Profiles) (connector.Logs, error) {
+			return xn(s, next), nil
+		}, st),
+		xconnector.WithMetricsToLogs(func(_ context.Context, s connector.Settings, _ component.Config, next consumer.Logs) (connector.Metrics, error) {
+			return xn(s, next), nil
+		}, st),
+		xconnector.WithMetricsToTraces(func(_ context.Context, s connector.Settings, _ component.Config, next consumer.Traces) (connector.Metrics, error) {
+			return xn(s, next), nil
+		}, st),
+		xconnector.WithMetricsToProfiles(func(_ context.Context, s connector.Settings, _ component.Config, next xconsumer.Profiles) (connector.Metrics, error) {
+			return xn(s, next), nil
+		}, st),
+		xconnector.WithTracesToLogs(func(_ context.Context, s connector.Settings, _ component.Config, next consumer.Logs) (connector.Traces, error) {
+			return xn(s, next), nil
+		}, st),
+		xconnector.WithTracesToMetrics(func(_ context.Context, s connector.Settings, _ component.Config, next consumer.Metrics) (connector.Traces, error) {
+			return xn(s, next), nil
+		}, st),
+		xconnector.WithTracesToProfiles(func(_ context.Context, s connector.Settings, _ component.Config, next xconsumer.Profiles) (connector.Traces, error) {
+			return xn(s, next), nil
+		}, st),
+		xconnector.WithProfilesToLogs(func(_ context.Context, s connector.Settings, _ component.Config, next consumer.Logs) (xconnector.Profiles, error) {
+			return xn(s, next), nil
+		}, st),
+		xconnector.WithProfilesToMetrics(func(_ context.Context, s connector.Settings, _ component.Config, next consumer.Metrics) (xconnector.Profiles, error) {
+			return xn(s, next), nil
+		}, st),
+		xconnector.WithProfilesToTraces(func(_ context.Context, s connector.Settings, _ component.Config, next consumer.Traces) (xconnector.Profiles, error) {
+			return xn(s, next), nil
+		}, st))
+	return rf, pf, ef, cf, xf
 }
 
 func c06Inject(w *c06World, next any, ctx context.Context, d any) error {
-	switch w.sg.name {
+	return c06InjectSig(w.sg.name, next, ctx, d)
+}
+
+func c06InjectSig(sig string, next any, ctx context.Context, d any) error {
+	switch sig {
 	case "logs":
 		return next.(consumer.Logs).ConsumeLogs(ctx, d.(plog.Logs))
 	case "metrics":
@@ -393,7 +516,12 @@ func TestVerifC06Graph(t *testing.T) {
 				p.procs = append(p.procs, pn)
 				procNames = append(procNames, pn)
 			}
-			for k := rnd.IntN(4); k > 0; k-- {
+			nExp := rnd.IntN(4)
+			if c%16 == 5 && i == 0 {
+				// a wide pipeline fan-out (8..14 more exporters): sizes the random generator otherwise never makes
+				nExp += 8 + c%7
+			}
+			for k := nExp; k > 0; k-- {
 				if len(expNames) > 0 && rnd.IntN(4) == 0 {
 					// an exporter shared with an earlier pipeline (one instance, called once per path)
 					en := expNames[rnd.IntN(len(expNames))]
@@ -454,6 +582,52 @@ func TestVerifC06Graph(t *testing.T) {
 				}
 			}
 		}
+		// cross-signal cases: one or two EXTRA pipelines of the next signal, each fed by a cross-signal connector ('x') that sits in
+		// the exporter position of one of the pipelines generated above (derived from the case index: no random draw)
+		var xNames []string
+		sgB := sigs[0]
+		for i, x := range sigs {
+			if x.name == sg.name {
+				sgB = sigs[(i+1+(c/12)%3)%len(sigs)] // any of the three OTHER signals
+			}
+		}
+		cross := c%4 == 2 && c%3 != 1
+		if cross {
+			npA := len(pipes)
+			for b, nb := 0, 1+(c/4)%2; b < nb; b++ {
+				p := &c06Pipe{name: fmt.Sprintf("pl%d", len(pipes)), sigB: true}
+				procNames = append(procNames, "q"+p.name)
+				for k := (c/8 + b) % 3; k > 0; k-- {
+					pn := fresh("p", (c+k)%3 == 0)
+					p.procs = append(p.procs, pn)
+					procNames = append(procNames, pn)
+				}
+				for k := 1 + (c/16+b)%3; k > 0; k-- {
+					en := fresh("e", (c+k+b)%4 == 0)
+					p.exps = append(p.exps, en)
+					expNames = append(expNames, en)
+				}
+				var xn string
+				if b == 1 && (c/32)%2 == 0 {
+					xn = xNames[0] // the same connector feeds both pipelines of the other signal
+				} else {
+					xn = fresh("x", (c/2+b)%3 == 0)
+					xNames = append(xNames, xn)
+					j := (c/4 + 3*b) % npA
+					pipes[j].exps = append(pipes[j].exps, xn)
+				}
+				p.recv = []string{xn}
+				pipes = append(pipes, p)
+			}
+		}
+		sigOf := func(p *c06Pipe) pipeline.Signal {
+			if p.sigB {
+				return sgB.sig
+			}
+			return sg.sig
+		}
+		// exporters and cross-signal connectors: everything that ends a payload's journey in its own signal
+		leafNames := func() []string { return append(append([]string{}, expNames...), xNames...) }
 		// every pipeline needs at least one exporter
 		for _, p := range pipes {
 			if len(p.exps) == 0 {
@@ -476,8 +650,19 @@ func TestVerifC06Graph(t *testing.T) {
 				recvNames = append(recvNames, r)
 			}
 		}
-		w := &c06World{sg: sg, recvNext: map[string]any{}, calls: map[string][]c06Call{}, fans: map[string]*c06Fan{}}
-		rf, pf, ef, cf := c06Factories(w)
+		w := &c06World{sg: sg, sgB: sgB, bySig: map[string]c06Sig{}, recvNext: map[string]any{}, calls: map[string][]c06Call{}, fans: map[string]*c06Fan{}}
+		for _, x := range sigs {
+			w.bySig[x.name] = x
+		}
+		// every third case some exporters fail (derived from the case index and the exporter's number: no random draw)
+		if c%3 == 1 && !cross {
+			w.failing = func(name string) bool {
+				var id int
+				fmt.Sscanf(c06ID(name), "%d", &id)
+				return (id*7+c)%4 == 0
+			}
+		}
+		rf, pf, ef, cf, xf := c06Factories(w)
 		mk := func(ty component.Type, names []string) map[component.ID]component.Config {
 			m := map[component.ID]component.Config{}
 			for _, n := range names {
@@ -488,22 +673,31 @@ func TestVerifC06Graph(t *testing.T) {
 		toIDs := func(names []string) []component.ID {
 			var o []component.ID
 			for _, n := range names {
-				ty := map[byte]component.Type{'r': c06R, 'p': c06P, 'q': c06P, 'e': c06E, 'c': c06C}[n[0]]
+				ty := map[byte]component.Type{'r': c06R, 'p': c06P, 'q': c06P, 'e': c06E, 'c': c06C, 'x': c06X}[n[0]]
 				o = append(o, component.MustNewIDWithName(ty.String(), n))
 			}
 			return o
 		}
 		pcs := pipelines.Config{}
-		for _, p := range pipes {
-			pcs[pipeline.NewIDWithName(sg.sig, p.name)] = &pipelines.PipelineConfig{Receivers: toIDs(p.recv),
-				Processors: toIDs(append([]string{"q" + p.name}, p.procs...)), Exporters: toIDs(p.exps)}
+		for i, p := range pipes {
+			// the probe sits at a varying position among the processors (first, in between, last): it only observes
+			at := (c + i) % (len(p.procs) + 1)
+			procs := append(append(append([]string{}, p.procs[:at]...), "q"+p.name), p.procs[at:]...)
+			pcs[pipeline.NewIDWithName(sigOf(p), p.name)] = &pipelines.PipelineConfig{Receivers: toIDs(p.recv),
+				Processors: toIDs(procs), Exporters: toIDs(p.exps)}
 		}
 		set := Settings{
 			Telemetry: componenttest.NewNopTelemetrySettings(), BuildInfo: component.NewDefaultBuildInfo(),
 			ReceiverBuilder:  builders.NewReceiver(mk(c06R, recvNames), map[component.Type]receiver.Factory{c06R: rf}),
 			ProcessorBuilder: builders.NewProcessor(mk(c06P, procNames), map[component.Type]processor.Factory{c06P: pf}),
 			ExporterBuilder:  builders.NewExporter(mk(c06E, expNames), map[component.Type]exporter.Factory{c06E: ef}),
-			ConnectorBuilder: builders.NewConnector(mk(c06C, connNames), map[component.Type]connector.Factory{c06C: cf}),
+			ConnectorBuilder: builders.NewConnector(func() map[component.ID]component.Config {
+				m := mk(c06C, connNames)
+				for k, v := range mk(c06X, xNames) {
+					m[k] = v
+				}
+				return m
+			}(), map[component.Type]connector.Factory{c06C: cf, c06X: xf}),
 			PipelineConfigs:  pcs,
 		}
 		g, err := Build(context.Background(), set)
@@ -517,7 +711,7 @@ func TestVerifC06Graph(t *testing.T) {
 		byConn := map[string][]*c06Pipe{}
 		for _, p := range pipes {
 			for _, r := range p.recv {
-				if r[0] == 'c' {
+				if r[0] == 'c' || r[0] == 'x' {
 					byConn[r] = append(byConn[r], p)
 				}
 			}
@@ -543,7 +737,7 @@ func TestVerifC06Graph(t *testing.T) {
 				cs = strings.Join(conns, ";")
 			}
 			out.Linef("op pipe id=%s procs=%s exps=%s conn=%s", p.name, c06Bits(p.procs), c06Bits(plain), cs)
-			capNode := g.pipelines[pipeline.NewIDWithName(sg.sig, p.name)].capabilitiesNode
+			capNode := g.pipelines[pipeline.NewIDWithName(sigOf(p), p.name)].capabilitiesNode
 			implCap[p.name] = capNode.Capabilities().MutatesData
 			out.Linef("obs cap %d", vB(implCap[p.name]))
 			bs := c06Bits(append(append([]string{}, p.procs...), plain...))
@@ -580,10 +774,23 @@ func TestVerifC06Graph(t *testing.T) {
 					}
 				} else {
 					want[e] = append(want[e], tr)
+					if e[0] == 'x' {
+						// the new payload of the other signal starts with the trail so far (plus the connector's own write)
+						t2 := tr
+						if c06Mut(e) {
+							t2 += ">" + e
+						}
+						for _, q := range byConn[e] {
+							walk(q, t2)
+						}
+					}
 				}
 			}
 		}
 		// (2) inject one payload at every receiver
+		var injRO []bool
+		var injErrs []int
+		var injIdx []int
 		for _, r := range recvNames {
 			d := sg.newData()
 			inRO := rnd.IntN(3) == 0
@@ -591,9 +798,15 @@ func TestVerifC06Graph(t *testing.T) {
 				sg.markRO(d)
 			}
 			w.seq++
+			w.injSeq++
+			w.inj = w.injSeq
+			injIdx = append(injIdx, w.inj)
+			injRO = append(injRO, inRO)
 			id := fmt.Sprintf("hop:%s#%d", r, w.seq)
 			w.fan(id, c06Ptr(d), inRO)
-			if err := c06Inject(w, w.recvNext[r], context.WithValue(context.Background(), c06HopKey, id), d); err != nil {
+			err := c06Inject(w, w.recvNext[r], context.WithValue(context.Background(), c06HopKey, id), d)
+			injErrs = append(injErrs, len(multierr.Errors(err)))
+			if err != nil && w.failing == nil {
 				out.Linef("viol sig=C06/graph/consume-error signal=%s %s", sg.name, vHex(err.Error()))
 			}
 			for _, p := range pipes {
@@ -604,8 +817,105 @@ func TestVerifC06Graph(t *testing.T) {
 				}
 			}
 		}
+		// asynchronous work: after every payload has travelled through the whole graph, every declared-mutating exporter writes once
+		// more to every object it still holds (C06_dag_async)
+		for _, e := range leafNames() {
+			if c06Mut(e) {
+				for _, cl := range w.calls[e] {
+					w.appendTag(cl.data, e)
+				}
+			}
+		}
 		for _, tag := range w.panics {
 			out.Linef("viol sig=C06/graph/declared-mutator-got-readonly-data component=%s signal=%s", tag, sg.name)
+		}
+		// (2b) the WHOLE unfolded graph below every receiver against the whole-graph model (Dag.fan, C06_dag_refines): what
+		// every exporter call was shown (content = trail, read-only flag) and what its object holds at the very end
+		var tok func(p *c06Pipe, sb *[]string)
+		tok = func(p *c06Pipe, sb *[]string) {
+			*sb = append(*sb, "p", fmt.Sprint(len(p.procs)))
+			for _, pr := range p.procs {
+				*sb = append(*sb, c06ID(pr), fmt.Sprint(vB(c06Mut(pr))))
+			}
+			for _, e := range p.exps {
+				if e[0] == 'c' {
+					*sb = append(*sb, "c", c06ID(e), fmt.Sprint(vB(c06Mut(e))))
+					for _, q := range byConn[e] {
+						tok(q, sb)
+					}
+					*sb = append(*sb, "]")
+				} else {
+					*sb = append(*sb, "e", c06ID(e), fmt.Sprint(vB(c06Mut(e))))
+				}
+			}
+			*sb = append(*sb, "]")
+		}
+		treeLeaves := 0
+		type c06Journey struct {
+			src  string // receiver or cross-signal connector
+			inj  int
+			ro   bool
+			t0   string
+			errs int
+		}
+		var journeys []c06Journey
+		for ri, r := range recvNames {
+			journeys = append(journeys, c06Journey{r, injIdx[ri], injRO[ri], "", injErrs[ri]})
+		}
+		for _, sb := range w.subs {
+			journeys = append(journeys, c06Journey{sb.x, sb.inj, false, sb.t0, sb.errs})
+		}
+		for _, jn := range journeys {
+			r := jn.src
+			var toks []string
+			var top []bool
+			for _, p := range pipes {
+				for _, s := range p.recv {
+					if s == r {
+						tok(p, &toks)
+						top = append(top, implCap[p.name])
+					}
+				}
+			}
+			toks = append(toks, "]")
+			var failIDs []string
+			if w.failing != nil {
+				for _, e := range expNames {
+					if w.failing(e) {
+						failIDs = append(failIDs, c06ID(e))
+					}
+				}
+			}
+			fl := "-"
+			if len(failIDs) > 0 {
+				fl = strings.Join(failIDs, ",")
+			}
+			out.Linef("op tree ro=%d fail=%s t0=%s %s", vB(jn.ro), fl, c06TrailIDs(jn.t0), strings.Join(toks, " "))
+			out.Linef("obs caps %s", c06BoolBits(top))
+			out.Linef("obs errs %d", jn.errs)
+			var entries []string
+			holders := map[uintptr]int{} // how many exporter calls of this payload's journey hold the same object
+			for _, e := range leafNames() {
+				for _, cl := range w.calls[e] {
+					if cl.inj == jn.inj {
+						holders[c06Ptr(cl.data)]++
+					}
+				}
+			}
+			for _, e := range leafNames() {
+				for _, cl := range w.calls[e] {
+					if cl.inj == jn.inj {
+						entries = append(entries, fmt.Sprintf("%s:%d:%s:%s:%d", c06ID(e), vB(cl.ro), c06TrailIDs(cl.trail), c06TrailIDs(w.trail(cl.data)), holders[c06Ptr(cl.data)]))
+					}
+				}
+			}
+			sort.Strings(entries)
+			treeLeaves += len(entries)
+			if len(entries) == 0 {
+				out.Linef("obs leaves -")
+			} else {
+				out.Linef("obs leaves %s", strings.Join(entries, ","))
+			}
 		}
 		// every fan-out call against the model, consumers in name order
 		nfans := 0
@@ -652,7 +962,7 @@ func TestVerifC06Graph(t *testing.T) {
 			}
 		}
 		// (3) trails
-		for _, e := range expNames {
+		for _, e := range leafNames() {
 			calls := w.calls[e]
 			var seen []string
 			for _, cl := range calls {
@@ -672,7 +982,7 @@ func TestVerifC06Graph(t *testing.T) {
 				after := w.trail(cl.data)
 				wantAfter := cl.trail
 				if c06Mut(e) {
-					wantAfter += ">" + e
+					wantAfter += ">" + e + ">" + e // its write during the call and its asynchronous one
 				}
 				if after != wantAfter {
 					out.Linef("viol sig=C06/graph/exporter-sees-foreign-mutation-later exporter=%s signal=%s saw=%s want=%s", e, sg.name, vHex(after), vHex(wantAfter))
@@ -686,6 +996,13 @@ func TestVerifC06Graph(t *testing.T) {
 		out.Linef("stat connectors %d", len(connNames))
 		out.Linef("stat signal_%s 1", sg.name)
 		out.Linef("stat fanout_calls %d", nfans)
+		out.Linef("stat tree_exporter_calls %d", treeLeaves)
+		out.Linef("stat failing_exporters %d", vB(w.failing != nil))
+		out.Linef("stat cross_signal %d", vB(cross))
+		if cross {
+			out.Linef("stat cross_%s_to_%s 1", sg.name, sgB.name)
+		}
+		out.Linef("stat cross_signal_payloads %d", len(w.subs))
 		out.Linef("end")
 		out.Flush()
 	}
